@@ -17,8 +17,10 @@
 (*                   here Next is a real action (one more step) and every reachable state is a   *)
 (*                   case: the objects and what each of them must enumerate after the history    *)
 (* In mode "multi" every case is also evaluated through every sum expression of SumExprs(NOps)  *)
-(* (all nestings / spellings of +, combine, MultiSweep over the operands in order), exported    *)
-(* once per run as a "SHAPES" line.                                                             *)
+(* (nestings / spellings of +, combine, MultiSweep over the operands in order; ShapeSet = "all" *)
+(* or "uniform", see SumExprs), exported once per run as a "SHAPES" line.                       *)
+(* In mode "hist" only MaxSteps, MaxEmpty (0: one operand triple, else two) and the shards (of  *)
+(* the first step) matter.                                                                      *)
 (*                                                                         *)
 (* Universe parameters: MinKeys..MaxKeys item keys (in total over the      *)
 (* operands of a case); value lists of length 0..MaxLen over NVals values  *)
